@@ -154,6 +154,10 @@ LAYOUTS = [
     "a + b * c", "not a", "-a", "a and b or c", "a < b <= c", "await f(x)", "(yield x)", "(yield from x)", "(n := f(x))",
     "f'{x}: {y!r:>{w}}'", "'text' 'more'", "'''multi\nline'''", "('''multi\nline''', a)", "f(x, '''multi\nline''')", "f('''m\nl''', x)",
     "a if b else c if d else e", "f(g(h(1)))", "x[f(k=1, *y)]", "f(*a, *b)", "f(k=1, *a, **b)", "{a, b}", "{a for a in b}",
+    # round 13 (C13-r13-expr-end-compared-componentwise): a node visited later lies on an earlier line at a larger column - a
+    # keyword before a starred argument, the continuation line indented less than the keyword value
+    "f(key=1111111111,\n  *x)", "f(a, key=1111111111,\n *x,\n b=2)", "f(key=g(1111111111),\n*x, **kw)",
+    "x[f(key=1111111111,\n  *y)]", "{**aaaaaaaaaa,\n 'k': 1}",
 ]
 
 
